@@ -98,7 +98,7 @@ func checkC11(h *harness.H, ci interface{}) *harness.Failure {
 	if r2.Outcome == pool.Hang {
 		what = "the parser did not return within " + (30*time.Second + 6*parseBound(len(c.Text))).String()
 	}
-	return harness.Failf("%s (kind %s, %d bytes)\ninput: %q\nstderr: %s", what, c.Kind, len(c.Text), short(c.Text, 400), short(r2.Stderr, 1500))
+	return harness.Failf("%s (kind %s, %d bytes)\ninput: %q\nstderr: %s", what, c.Kind, len(c.Text), short(c.Text, 400), harness.Brief(r2.Stderr))
 }
 
 func TestC11(t *testing.T) {
